@@ -160,6 +160,12 @@ Catalogue == {
   Sc("withkey.job-with.dup", "withkey", "with-key", "yaml-key", {"1", "2"}, {"dup"}, {}),
   Sc("withkey.docker.entrypoint-args", "withkey", "builtin-table", "with-key", {"1", "2"}, {"ok"},
      {<<"entrypoint+args", "-">>}),
+  \* keys routed by name inside the case-insensitive `with:` mapping (parse.go parseStep: args / entrypoint)
+  Sc("withkey.popular.entrypoint-args", "withkey", "builtin-table", "with-key", {"1", "2"}, {"ok"},
+     {<<"entrypoint+args", "-">>}),
+  Sc("withkey.action-local.entrypoint-args", "withkey", "builtin-table", "with-key", {"1", "2"}, {"ok"},
+     {<<"entrypoint+args", "-">>}),
+  Sc("withkey.popular.args-expr", "withkey", "builtin-table", "with-key", {"2"}, {"diag"}, Z({"args", "entrypoint"})),
   Sc("withkey.github-script.script", "withkey", "builtin-table", "with-key", {"2"}, {"diag"}, {<<"script", "-">>}),
   \* ------------------------------------------------------------------- secrets
   Sc("secret.call-decl.dot", "secret", "call-secrets-key", "dot", R12a, OU, {}),
